@@ -211,6 +211,15 @@ def run(ctx):
             (tgt is not None and b in scale and isinstance(v, int) and v == scale[b] // tgt)
         ctx.ob('R1.5', 'writer.time_factors:value-is-the-unit-ratio:%s/%s' % (nm, b), bool(ok),
                'factor %r converts %s ticks into %s ticks' % (v, b, nm), wloc)
+        if tgt is not None and b in scale and scale[b] > tgt:
+            # the table is only ever *multiplied* with (writer.convert: `values * factor`): an entry from a finer unit
+            # to a coarser one needs a division
+            cvf = wr.func('convert')
+            divides = any(isinstance(x, ast.BinOp) and isinstance(x.op, (ast.FloorDiv, ast.Div)) and norm(x.right) == 'factor'
+                          for x in ast.walk(cvf))
+            ctx.ob('R1.5', 'writer.time_factors:finer-to-coarser-entry-is-applied-as-a-division:%s/%s' % (nm, b), divides,
+                   'entry (%s, %s) = %r is multiplied into the counts; %s ticks into %s ticks needs a division (reached by appending '
+                   'datetime64[%s] rows to a column stored as %s)' % (nm, b, v, b, nm, b, nm), wloc)
 
     # R1.6
     r16(ctx, core)
@@ -224,6 +233,7 @@ def run(ctx):
     c11.r1110(ctx, 'R1.15')
     c03.r313(ctx, repo['core'], 'R1.12')
     c03.r311(ctx, repo['core'], 'R1.13')
+    c03.r322(ctx, repo['core'], 'R1.23')
     c03.r315(ctx, repo['core'], 'R1.16')
     c03.r316(ctx, repo['core'], repo['compression'], 'R1.17')
     from . import callsigs as _cs
